@@ -431,6 +431,10 @@ func c04slotsOf(ops []string) int {
 }
 
 func c04cases(e vt.Env, yield func(vt.Case) bool) {
+	// D: a rendezvous transport with a single-threaded peer (c05_direct.go)
+	if !c05directCases("C04", e, yield) {
+		return
+	}
 	opsets := [][]string{{"C", "C"}, {"C", "B:cnc"}, {"B:cc", "C"}, {"C", "C", "C"}, {"B:ncn"}, {"B:nc", "C"}, {"B:cnc", "B:nc"}, {"C", "BF", "C", "C"}, {"BF", "B:cc", "C"}}
 	extras := []string{"", "dup", "mal", "mal2", "strid", "badreq", "unk", "note", "cb", "nonobj"}
 	for oi, ops := range opsets {
